@@ -225,11 +225,14 @@ func accountTypes(c *runner.Ctx, x []byte) bool {
 		}
 		if shapeTypes[n.Type] {
 			v, fl := n.FullBox(x)
-			sh := fmt.Sprintf("%s/v%d", n.Type, v)
-			if m, ok := flagMasks[n.Type]; ok {
-				sh += fmt.Sprintf("/f%06x", fl&m)
+			vs := fmt.Sprintf("v%d", v)
+			if v > 3 {
+				vs = "v4+"
 			}
-			c.Seen("shape", sh)
+			c.Seen("version_shape", n.Type+"/"+vs)
+			if m, ok := flagMasks[n.Type]; ok && v <= 1 {
+				c.Seen("flags_shape/"+n.Type, fmt.Sprintf("v%d/f%06x", v, fl&m))
+			}
 		}
 	}
 	return non
@@ -239,7 +242,7 @@ var shapeTypes = map[string]bool{"mvhd": true, "tkhd": true, "mdhd": true, "mehd
 	"pssh": true, "ctts": true, "cslg": true, "subs": true, "saio": true, "saiz": true, "sgpd": true, "sbgp": true, "tfra": true, "trun": true, "tfhd": true,
 	"senc": true, "stsz": true, "tenc": true, "trex": true, "leva": true, "ssix": true, "tlou": true, "alou": true, "kind": true, "emib": true, "schm": true, "colr": false}
 
-var flagMasks = map[string]uint32{"trun": 0x000f05, "tfhd": 0x03003b, "senc": 0x000002, "saio": 1, "saiz": 1, "subs": 0, "tkhd": 0}
+var flagMasks = map[string]uint32{"trun": 0x000f05, "tfhd": 0x03003b, "senc": 0x000002, "saio": 1, "saiz": 1}
 
 // culprit descends into the children of a structure whose encode failed and
 // returns the type of the innermost node that fails on its own.
